@@ -572,12 +572,16 @@ impl<S: BitmapSlice + Send + Sync> FileSystem for PassthroughFs<S> {
     }
 
     fn forget(&self, _ctx: &Context, inode: Inode, count: u64) {
+        #[cfg(fuse_backend_rs_verif)]
+        verif_sched::point(verif_sched::POINT_FORGET_BEFORE_WRITE_LOCK);
         let mut inodes = self.inode_map.get_map_mut();
 
         self.forget_one(&mut inodes, inode, count)
     }
 
     fn batch_forget(&self, _ctx: &Context, requests: Vec<(Inode, u64)>) {
+        #[cfg(fuse_backend_rs_verif)]
+        verif_sched::point(verif_sched::POINT_FORGET_BEFORE_WRITE_LOCK);
         let mut inodes = self.inode_map.get_map_mut();
 
         for (inode, count) in requests {
